@@ -227,3 +227,99 @@ Proof.
     destruct (x =? c); cbn [orb negb]; [exact T|] end.
   reflexivity.
 Qed.
+
+(* ---- jls_core_signal_def_align ---- *)
+Lemma defaults_in_range_any : forall w d, in_range d -> in_range (sd_defaults w d).
+Proof.
+  intros w d Hd. destruct (in_dec N.eq_dec w sd_widths) as [Hw|Hw]; [now apply defaults_in_range|].
+  unfold sd_widths in Hw. cbn [In] in Hw.
+  unfold sd_defaults, sd_table, sd_table_old.
+  assert (w =? 24 = false) as -> by lia. assert (w =? 1 = false) as -> by lia.
+  assert (w =? 4 = false) as -> by lia. assert (w =? 8 = false) as -> by lia.
+  assert (w =? 16 = false) as -> by lia. assert (w =? 32 = false) as -> by lia.
+  assert (w =? 64 = false) as -> by lia. exact Hd.
+Qed.
+
+Lemma round_up_cases : forall x m,
+  (exists v, sd_round_up x m = SdOk v /\ v < 4294967296) \/
+  sd_round_up x m = SdErr 5 \/ sd_round_up x m = SdFault SdDivZero.
+Proof.
+  intros x m. unfold sd_round_up. destruct (m =? 0); [auto|].
+  change U32MAX with 4294967295.
+  destruct (4294967295 <? (x + m - 1) / m * m) eqn:E; [auto|].
+  left. eexists. split; [reflexivity | lia].
+Qed.
+
+Lemma fit_loop_cases : forall f e epd,
+  (exists k, sd_fit_loop f e epd = SdOk k /\ k <= epd) \/ (exists ft, sd_fit_loop f e epd = SdFault ft).
+Proof.
+  induction f as [|f IH]; intros e epd; cbn [sd_fit_loop].
+  - destruct (epd =? 0); [eauto|]. destruct (sd_is_div e epd); [left; eexists; split; [reflexivity|lia] | eauto].
+  - destruct (epd =? 0) eqn:E0; [eauto|]. destruct (sd_is_div e epd); [left; eexists; split; [reflexivity|lia]|].
+    destruct (IH e (N.pred epd)) as [(k & Hk & Hle)|(ft & Hf)]; [left; exists k; split; [exact Hk | lia] | eauto].
+Qed.
+
+Lemma multiple_eq : forall w, w <> 0 -> w < 256 ->
+  (if (24 =? Z.of_N w)%Z then Ok 32%Z
+   else bind (sint 32 (32 * 8)) (fun t2 => bind (sdiv 32 t2 (Z.of_N w)) (fun t3 => Ok t3)))
+  = Ok (Z.of_N (sd_multiple w)).
+Proof.
+  intros w H0 Hw. unfold sd_multiple. change (SAMPLE_SIZE_BYTES_MAX * 8) with 256.
+  destruct (w =? 24) eqn:E.
+  - assert ((24 =? Z.of_N w)%Z = true) as -> by lia. reflexivity.
+  - assert ((24 =? Z.of_N w)%Z = false) as -> by lia.
+    change (sint 32 (32 * 8)) with (Ok (A := Z) 256%Z). cbn [bind]. unfold sdiv.
+    assert ((Z.of_N w =? 0)%Z = false) as -> by lia.
+    assert (Q : Z.quot 256 (Z.of_N w) = Z.of_N (256 / w)).
+    { rewrite Z.quot_div_nonneg by lia. change 256%Z with (Z.of_N 256). now rewrite <- N2Z.inj_div. }
+    rewrite Q. unfold sint, in_sint.
+    assert (256 / w <= 256) by (apply N.div_le_upper_bound; lia).
+    assert (((- 2 ^ (32 - 1) <=? Z.of_N (256 / w)) && (Z.of_N (256 / w) <? 2 ^ (32 - 1)))%Z = true) as ->.
+    { change (2 ^ (32 - 1))%Z with 2147483648%Z. lia. }
+    reflexivity.
+Qed.
+
+Lemma cast_u32_of_N : forall x, x < 4294967296 -> cast_u 32 (Z.of_N x) = x.
+Proof.
+  intros x Hx. unfold cast_u. change (2 ^ 32)%Z with (Z.of_N 4294967296).
+  rewrite <- N2Z.inj_mod, N2Z.id. now apply N.mod_small.
+Qed.
+
+(* the two buffer-size tests and the final stores *)
+Lemma tail_eq : forall g w d1 sdf1 eps1 sumdf1 epd1, w < 256 -> sdf1 < 4294967296 -> eps1 < 4294967296 ->
+  (let def := put g d1 in
+   let samples_per_data := GenLib.u32 (sdf1 * epd1) in
+   bind (udiv (u64 (samples_per_data * w)) 8) (fun t14 =>
+   bind (udiv 4294967295 2) (fun t15 =>
+   if t15 <? t14 then Ok (5%Z, def)
+   else bind (udiv 4294967295 2) (fun t16 =>
+     if t16 <? u64 (u64 (eps1 * 4) * 8) then Ok (5%Z, def)
+     else
+       let def := set_jls_signal_def_s_sample_decimate_factor def sdf1 in
+       let def := set_jls_signal_def_s_samples_per_data def samples_per_data in
+       let def := set_jls_signal_def_s_entries_per_summary def eps1 in
+       let def := set_jls_signal_def_s_summary_decimate_factor def sumdf1 in
+       Ok (0%Z, def)))))
+  = match (let spd2 := SigDef.u32 (sdf1 * epd1) in
+           if sd_block_too_big w spd2 then SdErr JLS_ERROR_PARAMETER_INVALID else
+           if sd_summary_too_big eps1 then SdErr JLS_ERROR_PARAMETER_INVALID else
+           SdOk (mkSigDef spd2 sdf1 eps1 sumdf1 (sd_anno d1) (sd_utc d1))) with
+    | SdOk d' => Ok (0%Z, put g d')
+    | SdErr rc => Ok (Z.of_N rc, put g d1)
+    | SdFault _ => Fault Div_zero
+    end.
+Proof.
+  intros g w d1 sdf1 eps1 sumdf1 epd1 Hw Hs He. cbv zeta.
+  change (GenLib.u32 (sdf1 * epd1)) with (SigDef.u32 (sdf1 * epd1)).
+  set (spd2 := SigDef.u32 (sdf1 * epd1)).
+  assert (Hspd : spd2 < 4294967296) by (unfold spd2, SigDef.u32, U32; lia).
+  unfold udiv. cbn [N.eqb bind]. change (4294967295 / 2) with 2147483647.
+  unfold sd_block_too_big, sd_summary_too_big.
+  change (U32MAX / 2) with 2147483647. change JLS_SUMMARY_FSR_COUNT with 4. change SD_SIZEOF_DOUBLE with 8.
+  change JLS_ERROR_PARAMETER_INVALID with 5.
+  assert (u64 (spd2 * w) = spd2 * w) as -> by (unfold u64; apply N.mod_small; nia).
+  assert (u64 (u64 (eps1 * 4) * 8) = eps1 * 4 * 8) as -> by (unfold u64; lia).
+  destruct (2147483647 <? spd2 * w / 8); [reflexivity|].
+  destruct (2147483647 <? eps1 * 4 * 8); [reflexivity|].
+  destruct g, d1; reflexivity.
+Qed.
